@@ -54,7 +54,8 @@ OrchardActions(minPad, crossAddress, nIn, nOut) ==
 (* A *request shape* and a *change manifest* give the final transaction shape.               *)
 (* sh = [tinBytes, toutBytes, sIn, sOut, oIn, oOut, iIn, iOut: Nat, sapType, ov3: BOOLEAN,   *)
 (*       crossable: BOOLEAN]   crossable = the request has exactly one Ironwood output, its   *)
-(*       value is a canonical ZIP 318 denomination and the anchor lies on the bucket grid.    *)
+(*       value is a canonical ZIP 318 denomination, the anchor lies on the bucket grid and    *)
+(*       the step creates no ephemeral transparent output (ZIP 320).                          *)
 (* ch = [t: transparent P2PKH change outputs, e: ephemeral outputs listed as change,          *)
 (*       s, o, i: change outputs per shielded pool]                                           *)
 
